@@ -5,6 +5,43 @@ PROP = "C04"
 THEOREMS = [tuple(x) for x in json.load(open(os.path.join(VERIF, "lib", "pins", PROP + ".json")))]
 
 
+def fault_leg(run, har):
+    """black-box, through the real task::Runner: a step whose response file cannot be written fails without ever running; the
+    slots it never used must not be handed out - at most -j commands run at any instant afterwards"""
+    import shutil, tempfile
+    n2, out_ = build_n2_binary()
+    if n2 is None:
+        run.tie("n2 build", out_[-1000:])
+        return
+    for j, nbad in ((2, 1), (2, 3), (3, 2)):
+        d = tempfile.mkdtemp(prefix="n2verif-c04-%d-" % os.getpid())
+        try:
+            lines = ["rule slow", "  command = echo s >> log; sleep 0.4; echo e >> log; touch $out",
+                     "rule withrsp", "  command = echo s >> log; sleep 0.4; echo e >> log; touch $out", "  rspfile = blocker/$out.rsp", "  rspfile_content = x"]
+            for i in range(nbad):
+                lines.append("build bad%d: withrsp" % i)
+            for i in range(8):
+                lines.append("build w%d: slow" % i)
+            open(os.path.join(d, "build.ninja"), "w").write("\n".join(lines) + "\n")
+            open(os.path.join(d, "blocker"), "w").write("a regular file where a directory is needed\n")
+            p_ = subprocess.run([n2, "-j", str(j), "-k", "100"], cwd=d, stdout=subprocess.PIPE, stderr=subprocess.STDOUT, stdin=subprocess.DEVNULL, timeout=120, env=ENV)
+            log = open(os.path.join(d, "log")).read().split() if os.path.exists(os.path.join(d, "log")) else []
+            cur = peak = 0
+            for t in log:
+                cur += 1 if t == "s" else -1
+                peak = max(peak, cur)
+            built = sum(1 for i in range(8) if os.path.exists(os.path.join(d, "w%d" % i)))
+            where = {"suite": "rspfile-fault", "j": j, "unwritable_response_files": nbad, "peak": peak, "built": built, "rc": p_.returncode,
+                     "tail": p_.stdout.decode("utf-8", "replace")[-300:]}
+            if peak > j:
+                run.report_failure(None, "%d commands ran at once with -j %d after %d steps failed to write their response files" % (peak, j, nbad), where)
+            elif p_.returncode == 0 or built != 8:
+                run.report_failure(None, "unwritable response files: exit %d, %d of 8 independent steps built" % (p_.returncode, built), where)
+        finally:
+            shutil.rmtree(d, ignore_errors=True)
+    run.coverage["black_box_rspfile_fault"] = "steps whose response file cannot be written, -j 2/3, -k 100: peak concurrency from a start/end log"
+
+
 def main(tier, seed, replay=None):
     return sched_check(PROP, THEOREMS, tier, seed, [monitor_c04], extra_modules=["Model.All", "Proofs.SchedSpec", "Proofs.SchedInv", "Proofs.SchedLive", "Proofs.SchedRunThms"],
-                       replay=replay, scen_gen=gen_sched_or_regen, gen_kw=dict(pools=True))
+                       replay=replay, scen_gen=gen_sched_or_regen, gen_kw=dict(pools=True), probes=fault_leg)
